@@ -401,7 +401,9 @@ WEAVE_BASES = ["a{color:red}", "a{x:1;y:2}", "a{margin:0 !important}", "@media p
                "@import url(x) screen;", '@import "x" print, tv;', '@namespace p "u";', "@page :first{margin:0}",
                "@font-face{src:url(x)}", "a>b,c[d=e]:hover{x:f(1,2) g}", '@charset "utf-8";', "@x y{z}", "@x y;",
                'a{x:rgb(1,2,3) calc(1px + 2px) url(x) "s"}', "@page{@top-left{x:1}}", "@variables{a:1}", "a{x:var(a)}",
-               "@media screen and (min-width:1px){a{}}", "a:not(.b)::after{content:attr(x)}", "p|a,*|b{x:-1.5em/2}",
+               "@media screen and (min-width:1px){a{}}", "a:not(.b)::after{content:attr(x)}", "@variables{a:1;a:2;b:3}",
+               "a{x:1;x:2;X:3}", "@page{margin:0;margin:1px;@top-left{x:1;x:2}}", '@namespace p "u";@namespace p "v";',
+               "@import 'x';@import 'x';", "p|a,*|b{x:-1.5em/2}",
                "color:red;x:1 !important", "margin:0 auto", "x:f(1,2)", "a{x:1/2}", "a{font:12px/1.5 a,b}",
                "a{x:U+20-7f}", "a{x:#fff}", "a{x:hsla(1,2%,3%,.5)}", "@media print{@page{margin:0}}", "<!--a{}-->"]
 WEAVE_FILLERS = [" /*c*/ ", "/*c*/", " /**/ /**/ ", "/*c*/ ", " /*c*/", "\n/*c*/\n", " /*a*//*b*/ "]
@@ -728,15 +730,15 @@ def shrink_case(case, fam, budget=2.0):
 # ------------------------------------------------------------------------------------------------ known-family pumps
 PUMPS += [
     # term count of one value (space / comma / slash separated), statements per block, blocks per sheet
-    ("value-terms-space", lambda n: "a{b:" + "x " * (n * 8) + "}"),
-    ("value-terms-comma", lambda n: "a{b:" + "x," * (n * 8) + "x}"),
-    ("value-terms-slash", lambda n: "a{b:" + "1/" * (n * 8) + "1}"),
-    ("value-terms-mixed", lambda n: "a{transition:" + "x 1s ease, " * (n * 4) + "y}"),
-    ("value-strings", lambda n: "a{content:" + '"s" ' * (n * 8) + "}"),
-    ("value-urls", lambda n: "a{background:" + "url(x)," * (n * 8) + "url(y)}"),
-    ("value-functions", lambda n: "a{b:" + "f(1) " * (n * 8) + "}"),
+    ("value-terms-space", lambda n: "a{b:" + "x " * (n * 16) + "}"),
+    ("value-terms-comma", lambda n: "a{b:" + "x," * (n * 16) + "x}"),
+    ("value-terms-slash", lambda n: "a{b:" + "1/" * (n * 16) + "1}"),
+    ("value-terms-mixed", lambda n: "a{transition:" + "x 1s ease, " * (n * 8) + "y}"),
+    ("value-strings", lambda n: "a{content:" + '"s" ' * (n * 16) + "}"),
+    ("value-urls", lambda n: "a{background:" + "url(x)," * (n * 16) + "url(y)}"),
+    ("value-functions", lambda n: "a{b:" + "f(1) " * (n * 16) + "}"),
     ("declarations", lambda n: "a{" + "b:c;" * (n * 8) + "}"),
-    ("rules", lambda n: "a{b:c}" * (n * 8)),
+    ("rules", lambda n: "a{b:c}" * (n * 4)),
     ("variables-decls", lambda n: "@variables{" + "/*c*/a:1;" * n + "}"),
     ("media-queries-many", lambda n: "@media " + "a," * (n * 8) + "b{}"),
     ("selector-compound", lambda n: "a" + ".b" * (n * 8) + "{}"),
